@@ -472,6 +472,33 @@ def r6_generation_names(chk, prog, rule='R6'):
     chk.check(ok, rule, g.name, 'the rendered number reaches the file name as it is (nothing is cut off)', g.loc(), detail)
 
 
+def r7_os_layer(chk, prog, rule='R7'):
+    """the roll-over renames generation n to n + 1 and RELIES on the replacement of an existing destination (the
+    oldest generation is overwritten that way) and never looks at the result: the operating-system layer behind
+    common::FileOperations passes every rename / remove to the C library unconditionally - source and destination in
+    the right places - and returns its result"""
+    table = {'rename': ('rename', ('src', 'dest')), 'remove': ('remove', ('file',))}
+    for short, (libc, order) in table.items():
+        f = prog.one('celma::common::detail::FileFuncsOs', short)
+        cs = [c for c in f.calls() if c.get('k') == 'CallExpr' and (c.get('callee') or '') in (libc, '::' + libc, 'std::' + libc)]
+        ok = len(cs) == 1 and not f.cfg.must_pass_through(lambda n_: any(n_ is c for c in cs))
+        detail = 'the C library function is not reached on every path (calls: %d)' % len(cs)
+        if ok:
+            pn = [p_['name'] for p_ in f.params]
+            a = call_args(cs[0])
+            want = [pn[1], pn[0]] if short == 'rename' else [pn[0]]      # rename( dest, src) -> ::rename( src, dest)
+            got = [sorted({y['ref'].get('name') for y in walk(x) if y.get('k') == 'DeclRefExpr' and
+                           y['ref'].get('sto') == 'param'}) for x in a]
+            ok = got == [[w] for w in want]
+            detail = 'arguments %s, expected %s' % (got, want)
+        if ok:
+            rets = [x for x in f.walk() if x.get('k') == 'ReturnStmt' and children(x)]
+            ok = len(rets) == 1 and any(y is cs[0] for y in walk(rets[0]))
+            detail = 'the result of the C library function is not what is returned'
+        chk.check(ok, rule, f.name, 'FileFuncsOs::%s() passes the request to ::%s() on every path and returns its result'
+                  % (short, libc), f.loc(), '' if ok else detail)
+
+
 def run(chk):
     units = units_matching('library/log/files/', 'library/common/file_operations.cpp') + [
         os.path.join(VERIF, 'drivers', 'log_files.cpp')]
@@ -500,3 +527,7 @@ def run(chk):
     prog6 = load_program(units_matching('library/log/filename/builder.cpp'))
     chk.units = list(chk.units) + units_matching('library/log/filename/builder.cpp')
     r6_generation_names(chk, prog6)
+    chk.rule('R7', 'the operating-system file layer passes rename / remove through unconditionally', 2)
+    prog7 = load_program(units_matching('library/common/detail/file_funcs_os.cpp'))
+    chk.units = list(chk.units) + units_matching('library/common/detail/file_funcs_os.cpp')
+    r7_os_layer(chk, prog7)
